@@ -266,7 +266,10 @@ func ruleRGPlumb(p *Prog, r *Reporter) {
 					continue
 				}
 				recv := f.Params[0]
-				if dependsOn(st.Val, func(x ssa.Value) bool { return x == ssa.Value(recv) }) {
+				// the stored reader must be the option's reader itself (or the option), not a wrapper around it
+				sv := unwrap(st.Val)
+				d := globalP.D(sv)
+				if sv == ssa.Value(recv) || d == recv.Name() || d == recv.Name()+".Reader" {
 					found = true
 				}
 			}
